@@ -4,7 +4,7 @@
    never delivered, and that an activity lacking its object / target changes nothing. *)
 From Coq Require Import String List Bool Arith.
 From Verif Require Import Base.ListX Base.Json Base.Free Pub.Events Pub.Calls Pub.Value Pub.EffectSpec Pub.Util Pub.SideEffect Pub.Fed Pub.Soc Pub.BaseActor Pub.Monitors.
-From Verif Require Import Proofs.OnlyProofs Proofs.OrderProofs Proofs.DeliveryProofs Proofs.EffectProofs.
+From Verif Require Import Proofs.OnlyProofs Proofs.OrderProofs Proofs.DeliveryProofs Proofs.ForwardIffProofs Proofs.TargetProofs Proofs.EffectProofs.
 Import ListNotations.
 Open Scope string_scope.
 Open Scope list_scope.
@@ -47,6 +47,39 @@ Theorem C16_remove_owned_only : forall a ids tr r, ids_of "object" a = Ok ids ->
   exists s, run_monitor (eff_step (KRemove ids)) e0 tr = Some s.
 Proof. intros a ids tr r Hi H. destruct (wp_sound ev ans estate _ _ _ _ (eff_remove a ids Hi) tr r H) as [s [E _]]. exists s. exact E. Qed.
 
+(* Add against ANY world (which targets are owned, what is stored for them; every environment answering accordingly): whenever
+   it succeeds, the Updates issued are exactly those of the owned targets, in the order named, each writing add_spec of what
+   was stored - a target this server does not own changes nothing for the targets after it - and every owned target was a
+   collection.  (The federated default for Add is the same function: C04.) *)
+Theorem C16_add_every_owned_target : forall owns stored env,
+  (forall i, env (ELock i) = AOk) -> (forall i, env (EDb "Owns" [JStr i]) = ABool (owns i)) ->
+  (forall i, env (EDb "Get" [JStr i]) = AJson (stored i)) -> (forall x, env (EDb "Update" [x]) = AOk) ->
+  forall a ops ts, ids_of "object" a = Ok ops -> ids_of "target" a = Ok ts ->
+  fst (run_env env (add a)) = Ok tt ->
+  updates (snd (run_env env (add a))) =
+    flat_map (fun t => if owns t then match collection_prop (stored t) with
+                                      | Ok cp => [EDb "Update" [canon (add_spec cp ops (stored t))]]
+                                      | _ => [] end else []) ts
+  /\ forall t, In t ts -> owns t = true -> exists cp, collection_prop (stored t) = Ok cp.
+Proof. intros owns stored env H1 H2 H3 H4 a ops ts. exact (add_updates_owned owns stored env H1 H2 H3 H4 a ops ts). Qed.
+
+(* the hypotheses are met: a target this server does not own, then one it owns *)
+Definition ex_owned : string := "https://example.com/cols/1".
+Definition ex_env (e : ev) : ans :=
+  match e with
+  | EDb op args =>
+      if String.eqb op "Owns" then match args with [JStr i] => ABool (String.eqb i ex_owned) | _ => AErr end
+      else if String.eqb op "Get" then AJson (JObj [("type", JStr "Collection"); ("id", JStr ex_owned); ("items", JStr "https://remote.example/users/erin")])
+      else AOk
+  | _ => AOk
+  end.
+Definition ex_add : json :=
+  JObj [("type", JStr "Add"); ("id", JStr "https://remote.example/activities/1"); ("actor", JStr "https://remote.example/users/carol");
+        ("object", JStr "https://remote.example/things/1"); ("target", JArr [JStr "https://remote.example/cols/9"; JStr ex_owned])].
+Example C16_add_every_owned_target_not_vacuous :
+  fst (run_env ex_env (add ex_add)) = Ok tt /\ length (updates (snd (run_env ex_env (add ex_add)))) = 1.
+Proof. vm_compute. split; reflexivity. Qed.
+
 (* for EVERY environment: a Block handled by the default callback is never handed to the transport *)
 Theorem C16_block_never_delivered : forall cfg perm outbox v raw, c_social cfg = true -> mem "Block" (c_soc_other cfg) = false ->
   is_activity v = true -> type_name v = "Block" -> only nobatch (deliver_outbox cfg perm outbox v raw).
@@ -77,3 +110,4 @@ Print Assumptions C16_add_owned_only.
 Print Assumptions C16_remove_owned_only.
 Print Assumptions C16_block_never_delivered.
 Print Assumptions C16_missing_changes_nothing.
+Print Assumptions C16_add_every_owned_target.
